@@ -530,7 +530,9 @@ Definition h_field_equals (R : record) (r fields strings nocase : value) : resul
   h_field_loop R (fun s fv => rich_m REq s fv) r fields strings nocase.
 Definition h_field_contains (R : record) (r fields strings nocase wb : value) : result :=
   match wb with
-  | VBool false => h_field_loop R (fun s fv => contains_plain fv s) r fields strings nocase
+  | VBool false =>      (* a wanted string that is itself a missing field matches nothing (GENERATED fact) *)
+      h_field_loop R (fun s fv => if field_contains_skips_missing_string && is_missing s then vb false
+                               else contains_plain fv s) r fields strings nocase
   | _ => Exc EUnmodelled            (* word_boundary: regular expressions *)
   end.
 
